@@ -73,6 +73,9 @@ SPECIAL = {
     "unrelated_variable": 'def handler(p_x):\n    v0 = source()\n    w = "clean"\n    z = w + "x"\n    sink(z)\n    sink2(v0)\n    v1 = source2()\n    sink(v1)\n\nhandler("a")\n',
     "overwritten": 'def handler(p_x):\n    v0 = source()\n    v0 = "clean"\n    sink(v0)\n\nhandler("a")\n',
     "two_sources_two_sinks": 'def handler(p_src):\n    a = source()\n    b = p_src\n    sink(a)\n    c = b + "x"\n    sink(c)\n\nhandler("a")\n',
+    "two_sources_containers": 'class Box:\n    def __init__(self):\n        self.f = None\n\ndef handler(p_x):\n    t = source()\n    d = {"k": t}\n    xs = [t, 1]\n'
+                              '    o = Box()\n    o.f = t\n    u = source2()\n    w = u + "x"\n    sink(d)\n    sink(xs)\n    sink(o)\n    sink2(w)\n    q = source2()\n    sink2(q)\n\nhandler("a")\n',
+    "later_source_earlier_container": 'def handler(p_x):\n    d = {"k": 1}\n    a = source()\n    d["k"] = a\n    b = source2()\n    e = [b]\n    sink(d)\n    sink2(e)\n    c = source()\n    sink2(c)\n\nhandler("a")\n',
     "parameter_named_like_a_call_rule": 'def handler(source, sink):\n    sink(source)\n    v = sink\n    sink(v)\n\nhandler("a", print)\n',
 }
 PY_FLOW = 'def handler(p_x):\n    v0 = source()\n    sink(v0)\n\nhandler("a")\n'
@@ -81,6 +84,11 @@ PROJECTS = {
     "two_files": {"files": {"a.py": PY_FLOW, "b.py": PY_FLOW.replace("v0", "w0")}, "lang": "python",
                   "configs": {"only_a": [dict(SRC_CALL, unit_name="a.py"), SNK0], "sink_only_b": [SRC_CALL, dict(SNK0, unit_name="b.py")],
                               "a_and_b": [dict(SRC_CALL, unit_name="a.py"), dict(SRC_CALL, unit_name="b.py"), SNK0]}},
+    "suffix_names": {"files": {"handler.py": PY_FLOW, "old_handler.py": PY_FLOW.replace("v0", "w0"), "dler.py": PY_FLOW.replace("v0", "u0")}, "lang": "python",
+                     "configs": {"source_only_handler": [dict(SRC_CALL, unit_name="handler.py"), SNK0],
+                                 "sink_only_handler": [SRC_CALL, dict(SNK0, unit_name="handler.py")],
+                                 "both_only_dler": [dict(SRC_CALL, unit_name="dler.py"), dict(SNK0, unit_name="dler.py")],
+                                 "param_only_handler": [dict(SRC_PARAM, unit_name="handler.py"), SNK0]}},
     "two_languages": {"files": {"p.py": PY_FLOW, "q.js": JS_FLOW}, "lang": "python,javascript",
                       "configs": {"python_rules": [SRC_CALL, SNK0],
                                   "javascript_rules": [dict(SRC_CALL, lang="javascript"), dict(SNK0, lang="javascript")],
@@ -163,7 +171,7 @@ def run(tier, seed):
                 n_bad += 1
                 cs = by[vd["case"]]
                 kind = cs["_p"].split(":")[0]
-                v.violation("%s:%s:%s" % (vd["clause"], cs["_c"], cs["_p"] if kind == "special" else "chain"),
+                v.violation("%s:%s:%s" % (vd["clause"], cs["_c"], cs["_p"] if kind in ("special", "project") else "chain"),
                             {"case": vd["case"], "offending": vd["offending"], "reported": vd["flows"], "upper": vd["upper"], "rules": cs["rules"], "source": cs["source"]})
         full_with_flow = sum(1 for vd in verdicts if vd["case"].endswith("@full") and vd["flows"])
         if full_with_flow == 0 and not v.machinery:
